@@ -788,7 +788,9 @@ func c13Oracle(c *c13Case) {
 			c.Oracle = append(c.Oracle, c13Fail{"C13: consumed outside the buffer", fmt.Sprintf("delivery %d: handleEvents returned consumed outside [0, len(buf)]: %v", i, o.Calls)})
 		}
 	}
-	for i := 1; i < len(c.Obs); i++ {
+	// a panic is reported above; what a dying process had already done is not compared across cuttings
+	panicked := len(seen) > 0
+	for i := 1; i < len(c.Obs) && !panicked; i++ {
 		if len(c.Obs[0].Calls) == 0 || len(c.Obs[i].Calls) == 0 {
 			continue
 		}
